@@ -27,7 +27,8 @@ def callsn(f, name):
 
 
 def rets(f, val):
-    return [i for i, n in enumerate(f.nodes) if n["k"] == "ReturnStmt" and n["c"] and fin.eval_expr(f, n["c"][0], {}) == val]
+    live = f.reach([f.entry_pos()])
+    return [i for i, n in enumerate(f.nodes) if n["k"] == "ReturnStmt" and n["c"] and fin.eval_expr(f, n["c"][0], {}) == val and f.node_pos(i) in live]
 
 
 def run(prog, chk):
@@ -252,3 +253,88 @@ def run(prog, chk):
              fc.find_path(fc.node_pos(callsn(fc, "open")[0]), {fc.node_pos(r)}, avoid=q.pos_of(fc, callsn(fc, "close"))) is not None]
     if early:
         chk.note("File::copy returns false on %d path(s) without closing the source descriptor (descriptor leak; not a clause of C19)" % len(early))
+    open_flag_table(prog, chk, "C19.g")
+
+
+def open_flag_table(prog, chk, rid):
+    """FIN/TBL: File::open's decision table from its flag argument to the open(2) flags, for all 16 flag sets"""
+    chk.rule(rid, "FIN/TBL: for each of the 16 flag sets File::open hands open(2) an access mode that matches read/write, O_CREAT only for a "
+                  "writing, non-openFlag open, O_TRUNC only for a writing open without appendFlag, never O_APPEND (writes after seek() must land "
+                  "at the position), and positions at the end (lseek SEEK_END) exactly when appendFlag is given", floor=16)
+    f = ffn(prog, "File::open", "File.cpp")
+    P = f.params[1]["n"]
+    en = {}
+    for n in f.nodes:
+        if n["k"] == "DeclRefExpr" and n["ref"].get("dk") == "enumconst" and n["ref"].get("q", "").startswith("File::"):
+            en[n["ref"]["q"].split("::")[-1]] = n["ref"].get("v")
+    for k in ("readFlag", "writeFlag", "appendFlag", "openFlag"):
+        if k not in en:
+            raise AnalysisBroken("File::open does not test File::%s" % k)
+    O_ACC, O_WRONLY, O_RDWR, O_CREAT, O_TRUNC, O_APPEND = 3, 1, 2, 0o100, 0o1000, 0o2000
+    opens = callsn(f, "open")
+    if len(opens) != 1:
+        raise AnalysisBroken("File::open: expected one call of open(2), found %d" % len(opens))
+    for v in range(16):
+        val = {P: v, "this->fp": 0}
+        seen, end = [], None
+        for _ in range(6):
+            seen, end = fin.walk(f, f.entry, dict(val), stop_at_loop_back=False)
+            if isinstance(end, str) and end.startswith("undetermined: ") and "== -1" in end:
+                val[end[len("undetermined: "):]] = 0        # the system call succeeded
+                continue
+            break
+        names = [k for k in ("readFlag", "writeFlag", "appendFlag", "openFlag") if v & en[k]]
+        what = "flags = %s" % ("|".join(names) or "0")
+        where = f.where(opens[0])
+        if not isinstance(end, int):
+            chk.bad(rid, f, "open-table-undecided:%d" % v, where, "%s: the path through File::open is not decided by the flag value (%s)" % (what, end))
+            continue
+        if opens[0] not in seen:
+            chk.bad(rid, f, "open-not-reached:%d" % v, where, "%s: File::open returns without calling open(2) on a closed file" % what)
+            continue
+        ofl = None
+        for e in seen:
+            ne = f.nodes[e]
+            if ne["k"] in ("BinaryOperator", "CompoundAssignOperator") and ne.get("op") in ("=", "|=", "&=", "^=", "+=", "-=") and ne["c"]:
+                l = f.nodes[f.strip(ne["c"][0])]
+                if l["k"] == "DeclRefExpr" and l["ref"].get("dk") == "local":
+                    lk = f.r(ne["c"][0])
+                    x = fin.eval_expr(f, ne["c"][1], val)
+                    if ne["op"] != "=":
+                        old_ = val.get(lk)
+                        x = None if (x is None or old_ is None) else {"|=": old_ | x, "&=": old_ & x, "^=": old_ ^ x, "+=": old_ + x, "-=": old_ - x}[ne["op"]]
+                    val[lk] = x
+                    if x is None:
+                        val.pop(lk, None)
+            elif ne["k"] == "DeclStmt":
+                for d in ne["decls"]:
+                    if d.get("init") is not None:
+                        x = fin.eval_expr(f, d["init"], val)
+                        if x is not None:
+                            val[d["n"]] = x
+        ofl = fin.eval_expr(f, q.call_args(f, opens[0])[1], val)
+        if ofl is None:
+            chk.bad(rid, f, "open-flags-undetermined:%d" % v, where, "%s: the flags passed to open(2) are not determined by the flag argument" % what)
+            continue
+        rd, wr, ap, op = (bool(v & en[k]) for k in ("readFlag", "writeFlag", "appendFlag", "openFlag"))
+        want_acc = O_RDWR if (rd and wr) else (O_WRONLY if wr else 0)
+        errs = []
+        if ofl & O_ACC != want_acc:
+            errs.append("access mode %d, expected %d" % (ofl & O_ACC, want_acc))
+        if ofl & O_APPEND:
+            errs.append("O_APPEND is set: the kernel then ignores the position set by seek(), every write goes to the end of the file")
+        if ofl & O_TRUNC and (not wr or ap):
+            errs.append("O_TRUNC is set %s: existing bytes are discarded" % ("together with appendFlag" if ap else "without writeFlag"))
+        if ofl & O_CREAT and (not wr or op):
+            errs.append("O_CREAT is set %s: a missing file is created" % ("although openFlag asks to fail" if op else "for a read-only open"))
+        if wr and not rd and not ap and not op and not ofl & O_TRUNC:
+            errs.append("a write-only, non-append, creating open does not truncate: bytes of an older, longer file survive behind the written ones")
+        seeks = [c for c in callsn(f, "lseek") if c in seen and fin.eval_expr(f, q.call_args(f, c)[1], {}) == 0 and fin.eval_expr(f, q.call_args(f, c)[2], {}) == 2]
+        if ap and not seeks:
+            errs.append("appendFlag does not position at the end of the file (no lseek(fd, 0, SEEK_END) on the success path)")
+        if not ap and seeks:
+            errs.append("the position is moved to the end of the file without appendFlag")
+        if errs:
+            chk.bad(rid, f, "open-flag-table:%s" % ("|".join(names) or "0"), where, "%s -> open(2) flags 0%o: %s" % (what, ofl, "; ".join(errs)), evals=len(seen))
+        else:
+            chk.ok(rid, f, "%s -> 0%o%s" % (what, ofl, ", lseek END" if seeks else ""), where, "guard-directed walk under the flag value", evals=len(seen))
